@@ -224,6 +224,14 @@ func histOps(reduced bool) []HOp {
 			m, e := z.BitsExp()
 			z.SetBitsExp(m, int64(e))
 		}, RecvIsInput: true, PrecRule: prFree, CopiesAttrsFrom: -1, ModeSet: -1, NoDiff: true})
+		// raw access: the receiver's own mantissa slice edited in place (top word de-normalised) and handed back
+		add(HOp{Name: dn + ".SetBitsExp(own BitsExp() slice with the top word divided by 16)", Dst: d, Do: func(z *Dec, s []*Dec) {
+			m, e := z.BitsExp()
+			if len(m) > 0 {
+				m[len(m)-1] /= 16
+			}
+			z.SetBitsExp(m, int64(e))
+		}, RecvIsInput: true, PrecRule: prFree, CopiesAttrsFrom: -1, ModeSet: -1, NoDiff: true})
 		// conversions, formatting and predicates: nothing may change (not even the representation)
 		add(HOp{Name: dn + ".{Int,Int64,Uint64,Rat,Float64,Float32,Float,Text,Sprintf,MarshalText,GobEncode,IsInt,MinPrec,Cmp,Sign}", Dst: d, Do: func(z *Dec, s []*Dec) {
 			if e := z.MantExp(nil); e < 3000 && e > -3000 {
@@ -758,7 +766,7 @@ func init() {
 			"documented precision-0 rules as encoded in mc/hist.go (arith: max operand precision; Sqrt/Set/Neg/Abs: x's; integer setters 34 or digit count; strings 34; SetFloat64 17; SetFloat ⌈bits·log10 2⌉; copiers: Copy, SetMantExp, MantExp out-parameter, GobDecode into precision 0)",
 			"SetBitsExp on a precision-0 receiver has no documented rule: any precision >= MinPrec is accepted",
 			"transient write-then-restore of an operand is additionally covered by the write-protection layer (mc/wprot.go)",
-			"layers S*/H1/H2/H5/L* re-run the argument catalogues of C14/C15/C01 judging only the receiver's precision and mode after the call",
+			"layers S*/H1/H2/H5/L*/P1/P4/P5 re-run the argument catalogues of C14/C15/C01/C04 judging only the receiver's precision and mode after the call",
 		},
 		Layers: func(tier string) []Layer {
 			ls := append(histLayers(judgeAttrs, tier, "attribute model and operand immutability (C09)"), wprotLayers(tier, "C09")...)
@@ -767,6 +775,11 @@ func init() {
 			for _, l := range floatLayers(tier) {
 				if strings.HasPrefix(l.Name, "H1-") || strings.HasPrefix(l.Name, "H2-") || strings.HasPrefix(l.Name, "H5-") {
 					ls = append(ls, l)
+				}
+			}
+			for _, l := range specialLayers("quick") {
+				if strings.HasPrefix(l.Name, "P1-") || strings.HasPrefix(l.Name, "P4-") || strings.HasPrefix(l.Name, "P5-") {
+					ls = append(ls, l) // special values, range ends, extreme precision attributes: attribute judge (special.go)
 				}
 			}
 			for _, l := range arithLayers(judgeAttr, "quick") { // the attribute judge does not need the thorough operand sets
